@@ -293,11 +293,12 @@ VEdgeSound(crs, y0, y1, x) == \A py \in VSamples(y0, y1) :
   IF x % CW # 0 THEN VInterior(CellAt(crs, r, c))
   ELSE VRightEdge(CellAt(crs, r, c - 1)) \/ VLeftEdge(CellAt(crs, r, c))
 IsBoxRect(e) == IsRect(e) /\ ~HasCls(e, "filled")
+\* (the four edges are the straight parts: a corner radius takes its extent off both ends of every edge)
 RectSoundOne(crs, e) ==
-  LET x == U(e.n[1]) y == U(e.n[2]) w == U(e.n[3]) h == U(e.n[4]) IN
-  /\ AllOnLattice(e.n) /\ w > 0 /\ h > 0 /\ x >= 0 /\ y >= 0
-  /\ HEdgeSound(crs, x, x + w, y) /\ HEdgeSound(crs, x, x + w, y + h)
-  /\ VEdgeSound(crs, y, y + h, x) /\ VEdgeSound(crs, y, y + h, x + w)
+  LET x == U(e.n[1]) y == U(e.n[2]) w == U(e.n[3]) h == U(e.n[4]) rr == U(e.n[5]) IN
+  /\ AllOnLattice(e.n) /\ w > 0 /\ h > 0 /\ x >= 0 /\ y >= 0 /\ rr >= 0 /\ 2 * rr <= w /\ 2 * rr <= h
+  /\ HEdgeSound(crs, x + rr, x + w - rr, y) /\ HEdgeSound(crs, x + rr, x + w - rr, y + h)
+  /\ VEdgeSound(crs, y + rr, y + h - rr, x) /\ VEdgeSound(crs, y + rr, y + h - rr, x + w)
 RectSound(crs, doc) == \A i \in Idx(doc) : IsBoxRect(doc.elems[i]) => RectSoundOne(crs, doc.elems[i])
 C05s_OK(ev) == ev.doc.wf = 1 /\ RectSound(DrawCells(ev), ev.doc)
 C05s_NT(ev) == ev.doc.wf = 1 /\ \E i \in Idx(ev.doc) : IsBoxRect(ev.doc.elems[i])
@@ -361,6 +362,15 @@ NearCircle(D, k, n, cx, cy, rad) ==
          d2 == (px - cx) * (px - cx) + (py - cy) * (py - cy)
          lo == IF rad > 20 THEN (rad - 20) * (rad - 20) ELSE 0 IN
      lo <= d2 /\ d2 <= (rad + 20) * (rad + 20)
+\* rows with the character ch written into the (blank) cell lx, ly (0-based; ly is one of the rows)
+CellBlank(rows, lx, ly) == ly + 1 \in 1..Len(rows) /\ (lx + 1 > Len(rows[ly + 1]) \/ rows[ly + 1][lx + 1] = SP)
+NotTouching(rows, lx, ly) == \A r \in 1..Len(rows) : \A j \in 1..Len(rows[r]) :
+                               rows[r][j] # SP => (j - 1 - lx) \notin -1..1 \/ (r - 1 - ly) \notin -1..1
+WithLabel(rows, lx, ly, ch) ==
+  [r \in 1..Len(rows) |->
+     IF r # ly + 1 THEN rows[r]
+     ELSE [j \in 1..(IF lx + 1 > Len(rows[r]) THEN lx + 1 ELSE Len(rows[r])) |->
+             IF j = lx + 1 THEN ch ELSE IF j <= Len(rows[r]) THEN rows[r][j] ELSE SP]]
 CircleOracle(D, k, n, e) ==
   /\ IsCircle(e) /\ AllOnLattice(e.n)
   /\ U(e.n[3]) = RadiusOf(D)
@@ -370,10 +380,19 @@ C13_OK(ev) ==
   LET D == CircleDrawings[ev.circ.idx] k == ev.circ.k n == ev.circ.n
       C == { i \in Idx(ev.doc) : IsCircle(ev.doc.elems[i]) } IN
   /\ ev.doc.wf = 1
-  /\ SubSeq(ev.rows, 1, n + Len(D)) = PlacedRows(D, k, n)
+  /\ IF ev.circ.extra = 2 THEN ev.rows = WithLabel(PlacedRows(D, k, n), ev.circ.lx, ev.circ.ly, ev.circ.lch)
+                                /\ CellBlank(PlacedRows(D, k, n), ev.circ.lx, ev.circ.ly)
+                                /\ NotTouching(PlacedRows(D, k, n), ev.circ.lx, ev.circ.ly)
+     ELSE SubSeq(ev.rows, 1, n + Len(D)) = PlacedRows(D, k, n)
   /\ Cardinality(C) = 1
   /\ CircleOracle(D, k, n, ev.doc.elems[CHOOSE i \in C : TRUE])
   /\ IF ev.circ.extra = 0 THEN Len(ev.doc.elems) = 1 /\ Len(ev.rows) = n + Len(D)
+     ELSE IF ev.circ.extra = 2
+     THEN \* one plain label character in a blank cell of the drawing's rows, not touching the drawing:
+          \* the circle, and that character as text in its own cell, and nothing else
+          /\ Len(ev.doc.elems) = 2
+          /\ \E i \in Idx(ev.doc) : /\ IsText(ev.doc.elems[i]) /\ ev.doc.elems[i].s = <<ev.circ.lch>>
+                                     /\ ev.doc.elems[i].n = <<(ev.circ.lx * CW + 2) * MILLI, (ev.circ.ly * CH + 12) * MILLI>>
      ELSE \* unrelated content below, separated by a blank row: nothing else inside the drawing's rows
           /\ Len(ev.rows) > n + Len(D) /\ ev.rows[n + Len(D) + 1] = <<>>
           /\ \A i \in Idx(ev.doc) : i \notin C =>
